@@ -107,6 +107,10 @@ def case_strategy(draw, tier="quick", mode=None, kinds=None):
             if m in ("threaded", "sync") else False}
 
 
+class BlockingEmitStuck(Exception):
+    pass
+
+
 def run_real(case):
     from harness import elements
     elements.set_fault_class(case.get("exc", "Boom"))
@@ -147,38 +151,62 @@ def run_real(case):
             for idx, e in enumerate(case["events"]):
                 one(b, log, loop, idx, e)
     else:
-        log = Log()
-        if case.get("prelude"):
-            # the same thread first uses an asynchronous pipeline whose function raises (that
-            # exception reaches us, as it should); whatever per-thread state emit() keeps must
-            # not leak into the pipelines used afterwards
-            from streamz import Stream
-            with install():
-                s0 = Stream(asynchronous=True)
+        box = {"log": Log()}
 
-                class Interrupt(BaseException):
-                    """like KeyboardInterrupt: not an Exception"""
+        def body():
+            log = box["log"]
+            if case.get("prelude"):
+                # the same thread first uses an asynchronous pipeline whose function raises (that
+                # exception reaches us, as it should); whatever per-thread state emit() keeps must
+                # not leak into the pipelines used afterwards
+                from streamz import Stream
+                with install():
+                    s0 = Stream(asynchronous=True)
 
-                def boom(x):
-                    if case["prelude"] == "interrupt":
-                        raise Interrupt()
-                    raise Boom(("prelude", 0, 0))
-                m0 = s0.map(boom)
-                try:
-                    s0.emit(1)
-                except (Boom, Interrupt):
-                    pass
-                del m0
-        b = specs.build(spec, log, asynchronous="thread" if case["mode"] == "threaded" else False,
-                        consumer_modes=cm, faults=faults)
-        for c_ in b.consumers.values():
-            c_.auto = True   # no harness-resolved futures off the virtual loop
-        for idx, e in enumerate(case["events"]):
-            one(b, log, None, idx, e)
+                    class Interrupt(BaseException):
+                        """like KeyboardInterrupt: not an Exception"""
+
+                    def boom(x):
+                        if case["prelude"] == "interrupt":
+                            raise Interrupt()
+                        raise Boom(("prelude", 0, 0))
+                    m0 = s0.map(boom)
+                    try:
+                        s0.emit(1)
+                    except (Boom, Interrupt):
+                        pass
+                    del m0
+            b = specs.build(spec, log, asynchronous="thread" if case["mode"] == "threaded" else False,
+                            consumer_modes=cm, faults=faults)
+            for c_ in b.consumers.values():
+                c_.auto = True   # no harness-resolved futures off the virtual loop
+            for idx, e in enumerate(case["events"]):
+                one(b, log, None, idx, e)
+            if case["mode"] == "threaded":
+                for s in b.nodes:
+                    if type(s).__name__ == "sink":
+                        s.destroy()
+
         if case["mode"] == "threaded":
-            for s in b.nodes:
-                if type(s).__name__ == "sink":
-                    s.destroy()
+            # prelude and blocking emits on one helper thread, so that a blocking emit that never
+            # returns becomes a verdict instead of stalling the check
+            import threading
+
+            def guarded_body():
+                try:
+                    body()
+                except BaseException as ex:  # noqa: BLE001  (re-raised below)
+                    box["exc"] = ex
+            th = threading.Thread(target=guarded_body, daemon=True)
+            th.start()
+            th.join(60)
+            if th.is_alive():
+                raise BlockingEmitStuck(len(outcome))
+            if "exc" in box:
+                raise box["exc"]
+        else:
+            body()
+        log = box["log"]
     return outcome, rcs, log
 
 
@@ -186,7 +214,13 @@ def execute(case):
     spec = case["spec"]
     nodes = spec["nodes"]
     faults = {int(k): set(v) for k, v in case["faults"].items()}
-    outcome, rcs, log = run_real(case)
+    try:
+        outcome, rcs, log = run_real(case)
+    except BlockingEmitStuck as e:
+        # (elapsed real time enters this verdict: 60 s for work that takes milliseconds)
+        return Result([("%s:threaded:blocking-emit-never-returns" % ID, "emission %s of %s: the "
+                        "blocking emit has not returned after 60 s (consumers finish at once)" % (
+                            e.args[0], case["events"]))], nontrivial=True, abort=True)
     ev = log.events
     v = []
     # ---- (a) the raised instance reaches the caller, exactly when a fault fired --------------
